@@ -203,6 +203,8 @@ func eval(t *T, m map[string]uint64, sel func(string, uint64) (uint64, bool), me
 		r = b2u(int64(a[0]) < int64(a[1]))
 	case OpILe:
 		r = b2u(int64(a[0]) <= int64(a[1]))
+	case OpInt2BV:
+		r = a[0]
 	case OpBV2Int:
 		if t.Lo == 1 {
 			r = uint64(sx(a[0], aw))
